@@ -3889,7 +3889,9 @@ fn write_residuals<W: BitWrite>(
                     .rev()
                     .map(|partition| Partition::new(partition, &mut estimated_bits))
                     .collect::<Option<ArrayVec<_, MAX_PARTITIONS>>>()
-                    .filter(|p| !p.is_empty() && p.len().is_power_of_two())?;
+                    // a predictor order at least as large as the partition size
+                    // leaves fewer chunks than partitions, which can't be encoded
+                    .filter(|p| p.len() == partition_count)?;
 
                 Some((partitions, estimated_bits))
             })
